@@ -1586,7 +1586,10 @@ class MindsDBParser(Parser):
 
     @_('MINUS constant %prec UMINUS')
     def constant(self, p):
-        return Constant(-p.constant.value)
+        value = p.constant.value
+        if not isinstance(value, (int, float)):
+            raise ParsingException(f'Unary minus is allowed only before a number, got: -{str(p.constant)}')
+        return Constant(-value)
 
     # update fields list
     @_('update_parameter',
